@@ -9,14 +9,19 @@ VARIABLE l
 Clauses(e) ==
   LET s == e["in"]
       v == Value(s)
-      direct == v.ok /\ ~HasOverflow(v.tree)          \* direct whole-value decoding succeeds
+      ovf == v.ok /\ HasOverflow(v.tree)
+      direct == v.ok /\ ~ovf                          \* direct whole-value decoding succeeds
       chs == ToSet(e.choices)
-      readsAll == chs \cap {1, 2, 3} = {}             \* every member read with a validating reader
+      readsAll == chs \cap {1, 2, 3} = {}             \* every member read with a typed (value-producing) reader
+      validating == 2 \notin chs                      \* nothing but validating calls (no SkipValueFast)
   IN F(direct => (e.res[1] = 1 /\ e.res[2] = v.end), "C08", "final_offset_differs_from_direct_decoding")
      \cup F(direct /\ readsAll /\ e.res[1] = 1 /\ e.tree # <<"partial">> => TreeMatch(v.tree, e.tree, FALSE),
             "C08", "reconstructed_tree_differs")
      \cup F(direct /\ readsAll /\ e.res[1] = 1 => e.full = 1, "INFRA", "full_program_left_members_out")
      \cup F(~direct /\ readsAll => e.res[1] = 0, "C08", "validating_decoder_accepted_input_direct_decoding_rejects")
+     \* a malformed first value is rejected by every decoder that uses validating calls only (typed readers,
+     \* SkipValue, return-0, ValueReader); number overflow alone is only seen by readers that convert numbers
+     \cup F(~v.ok /\ validating => e.res[1] = 0, "C08", "validating_calls_accepted_malformed_input")
      \cup F(e.res[1] = 1 => (e.res[2] >= 0 /\ e.res[2] <= Len(s)), "C10", "offset_out_of_range")
      \cup F(e.unch = 1, "C16", "input_modified") \cup F(e.panics = 0, "C10", "panic")
 
